@@ -346,7 +346,8 @@ def monitor(traces, names, work, until_clean=True):
         viols = []
         cur = tr
         n0 = 0
-        for rnd in range(8):
+        # (VERIF_MONITOR_ROUNDS: how many violating scripts are cut out and reported per trace file; the seeded-change matrix uses 1)
+        for rnd in range(max(1, min(8, int(os.environ.get("VERIF_MONITOR_ROUNDS", "8"))))):
             v, n = monitor_one(cur, names, work, i * 10 + rnd)
             if rnd == 0:
                 n0 = n
